@@ -225,6 +225,7 @@ def run_case(case, tier):
             recs = edit_layout(recs, rng, desc)
             optset = None
     opts, optset, chains, tlist = pick_options(rng, recs, optset)
+    opts = opts + util.neutral_options(rng, classes=classes)
     text = pdbio.dump(recs)
     run = obs.run_single(text, opts)
     counts["pipeline_runs"] = 1
